@@ -446,7 +446,13 @@ LOSSY = {"int", "round", "abs", "bool", "floor", "ceil", "trunc", "len", "hash"}
 INJECTIVE = {"tuple", "sorted", "list", "float", "Rational", "Fraction", "str", "repr", "frozenset", "Decimal"}
 
 
-def check_group_key(ctx: Check, tree: Tree) -> None:
+def _anc2(node):
+    from ..loader import ancestors as _a
+
+    return _a(node)
+
+
+def check_group_key(ctx: Check, tree: Tree, state_identity: bool = True) -> None:
     """What is summed coherently is decided by the key of group_by_spin_projection: it must
     separate transitions by the (particle, spin projection) of EVERY outer state.  A key
     that maps different projections to one value merges groups: amplitudes that belong to
@@ -518,6 +524,34 @@ def check_group_key(ctx: Check, tree: Tree) -> None:
                     problems.append(f"spin projection passes through `{name}(...)`, which is not known to be injective")
             if isinstance(a, ast.BinOp) and isinstance(a.op, (ast.FloorDiv, ast.Mod, ast.Mult)) and not isinstance(a.op, ast.Mult):
                 problems.append(f"`{unparse(a)[:50]}` is not injective in the spin projection")
+    # ... and by WHICH state carries which projection: the incoherent sum runs over the projection of
+    # each outer state separately, so (state 0: +1, state 1: 0) and (state 0: 0, state 1: +1) are
+    # different terms even when the two states are the same particle species.
+    id_problems = []
+    n_parts = 0
+    for e, owner in exprs:
+        for gen in [n for n in ast.walk(e) if isinstance(n, (ast.GeneratorExp, ast.ListComp))]:
+            if not any(isinstance(n, ast.Attribute) and n.attr == "spin_projection" for n in ast.walk(gen.elt)):
+                continue
+            n_parts += 1
+            loop_names = {n.id for g in gen.generators for n in ast.walk(g.target) if isinstance(n, ast.Name)}
+            elts = gen.elt.elts if isinstance(gen.elt, (ast.Tuple, ast.List)) else [gen.elt]
+            carries_id = any(isinstance(x, ast.Name) and x.id in loop_names for x in elts)
+            par = next(iter(_anc2(gen)), None)
+            sorted_values = isinstance(par, ast.Call) and unparse(par.func) == "sorted" and par.args and par.args[0] is gen and not par.keywords
+            ordered_ids = any(isinstance(g.iter, ast.Call) and unparse(g.iter.func) == "sorted" for g in gen.generators)
+            if carries_id:
+                continue
+            if sorted_values:
+                id_problems.append(f"`{unparse(par)[:90]}` orders the (name, projection) pairs by value: which state carries which projection is lost")
+            elif not ordered_ids:
+                id_problems.append(f"`{unparse(gen)[:90]}` lists the pairs in the iteration order of an id set, not by state id")
+    if n_parts < 2:
+        raise AnalysisError(f"{fn.qual}: expected the key to be built from two (name, projection) sequences, found {n_parts}")
+    if state_identity:
+      ctx.verdict(not id_problems, "R-GROUPKEY", f"{fn.qual}::state-identity", tree.loc(fn.node),
+                  "group_by_spin_projection: the key keeps the association state id -> (particle, projection), so identical particles with exchanged projections are different groups",
+                  id_problems or None)
     ctx.verdict(not problems, "R-GROUPKEY", f"{fn.qual}::injective-key", tree.loc(fn.node),
                 "group_by_spin_projection: the group key separates transitions by (particle name, spin projection) of every initial and final state, without lossy conversion", problems or None)
 
